@@ -13,9 +13,9 @@ use textwrap::core::{display_width as dw, Word};
 
 fn gen_word(r: &mut Rng, clean: bool) -> String {
     let classes: &[Class] = if clean {
-        &[Class::Ascii, Class::Wide, Class::Zero, Class::Punct, Class::Clean, Class::Scalars]
+        &[Class::Ascii, Class::Wide, Class::Zero, Class::Punct, Class::Clean, Class::Scalars, Class::Real, Class::RealStyled]
     } else {
-        &[Class::Ascii, Class::Wide, Class::Zero, Class::Punct, Class::Clean, Class::Dirty, Class::Scalars]
+        &[Class::Ascii, Class::Wide, Class::Zero, Class::Punct, Class::Clean, Class::Dirty, Class::Scalars, Class::Real, Class::RealStyled]
     };
     loop {
         let mut m = Mix::swarm(r, classes);
